@@ -5,7 +5,7 @@
 (* action binds the logged fields and evaluates the property rules of       *)
 (* DESIGN.md Appendix B against the Ref layer.                              *)
 (***************************************************************************)
-EXTENDS TraceBase, Compress, Txt, Values, Store
+EXTENDS TraceBase, Compress, Txt, Values, Store, Mdns
 
 VARIABLES l,         \* index of the next event to consume
           st         \* abstract state carried through a session (store / mDNS events): see Reset
@@ -355,6 +355,39 @@ TraceValueCmp ==
   /\ Rule(l, "EqHash", (Ev.haseq /\ Ev.eq /\ Ev.ha # <<>>) => Ev.ha = Ev.hb,
           <<Ev.kind, Ev.how, "equal values hash differently">>)
 
+(* Discover (C15): announcements e.anns crossed the wire (compressed packets) into a   *)
+(* discoverer watching e.watched whose own instance is e.own; e.reported is what        *)
+(* get_known_services then reports, e.notified what the on_discovery channel delivered  *)
+TraceDiscover ==
+  /\ Ev.ev = "Discover"
+  /\ LET exp == ExpectedInstances(Ev.anns, Ev.watched, Ev.own)
+         rep == ReportedSet(Ev.reported) IN
+     /\ Rule(l, "NoPanic", ~Ev.panicked, <<"discovery pipeline">>)
+     /\ Rule(l, "DiscoverExact", rep = exp /\ Len(Ev.reported) = Cardinality(exp),
+             <<"missing", {x.name : x \in exp \ rep}, "unexpected", {x.name : x \in rep \ exp},
+               "reported", Len(Ev.reported), "expected", Cardinality(exp)>>)
+     /\ Rule(l, "IngestFilter", \A x \in ReportedSet(Ev.notified) : x \in exp,
+             <<"notified-but-not-announced", {x.name : x \in ReportedSet(Ev.notified) \ exp}>>)
+
+(* Escape (C15): e.esc = escaped_instance_name(e.s), e.back = unescaped(e.esc) *)
+TraceEscape ==
+  /\ Ev.ev = "Escape"
+  /\ Rule(l, "EscapeInverse", Ev.esc = Escape(Ev.s) /\ Ev.back = Ev.s, <<Ev.s, Ev.esc, Ev.back>>)
+
+(* Datagram (C14): one received datagram handled by the pipeline of e.role          *)
+(* ("responder" / "discovery" / "resolver") under a real RwLock.                    *)
+(*  e.steps = sequence of <<step, outcome>>, outcome in "ok" "err" "skip" "panic"    *)
+(*  e.poisoned: the lock was poisoned afterwards; e.usable: the application could    *)
+(*  still read the store; e.reply: bytes sent (<<>> if none); e.reparse: crate's     *)
+(*  verdict on its own reply                                                         *)
+TraceDatagram ==
+  /\ Ev.ev = "Datagram"
+  /\ Rule(l, "LoopAlive", \A i \in 1 .. Len(Ev.steps) : Ev.steps[i][2] # "panic",
+          <<Ev.role, "len", Len(Ev.b), Ev.steps>>)
+  /\ Rule(l, "LockClean", ~Ev.poisoned /\ Ev.usable, <<Ev.role, "poisoned", Ev.poisoned, "usable", Ev.usable>>)
+  /\ Rule(l, "ReplyParses", Ev.reply # <<>> => (Ev.reparse = "ok" /\ RefDecode(Ev.reply).ok),
+          <<Ev.role, "reply-len", Len(Ev.reply), Ev.reparse>>)
+
 (* Reparse (C11): bytes e.b accepted by the parser (e.p1), re-serialised plain  *)
 (* (e.b2) and compressed (e.b3), each parsed again (e.p2, e.p3)                 *)
 TraceReparse ==
@@ -460,6 +493,7 @@ Stateless ==
            \/ TraceNameDecode
            \/ TraceNameNew \/ TraceLabelNew \/ TraceNameRel
            \/ TraceTxtSplit \/ TraceTxtAttrs \/ TraceTxtRaw \/ TraceTxtLong \/ TraceCStrNew
+           \/ TraceDiscover \/ TraceEscape \/ TraceDatagram
            \/ TraceValueCmp \/ TraceParse \/ TracePeek \/ TraceInspect \/ TraceSinkBuild \/ TraceRoundTrip \/ TraceReparse
            \/ TraceCodeConv \/ TraceMnemonics \/ TraceMatchType \/ TraceMatchClass
 
